@@ -277,6 +277,12 @@ class ImapUtf7(Bounded):
         for n in range(0, 4 if tier == "quick" else 5):
             for t in itertools.product(alpha, repeat=n):
                 yield "".join(t)
+        # long shifted runs: base64 helpers that wrap lines do so after 57 input bytes (29 BMP / 15 astral characters);
+        # every run length around the multiples of that boundary, alone and embedded (seeded change C41-2)
+        for ch in ("é", "￿", "\U0001F600", "\x00"):
+            for n in list(range(12, 34)) + [56, 57, 58, 59, 85, 86, 87, 114, 115, 116, 200]:
+                yield ch * n
+                yield "a" + ch * n + "&b"
         for _ in range(300 if tier == "quick" else 5000):
             n = rng.randrange(1, 12)
             out = []
